@@ -237,7 +237,7 @@ func (u *g2lUnit) order(p *g2lPkg) []string {
 				return true
 			}
 			if id, ok := c.Fun.(*ast.Ident); ok {
-				if _, isFn := p.info.Uses[id].(*types.Func); isFn && !in[id.Name] && p.decls[id.Name] != nil && u.absFuncs[id.Name] == "" {
+				if _, isFn := p.info.Uses[id].(*types.Func); isFn && !in[id.Name] && p.decls[id.Name] != nil && u.absFuncs[id.Name] == "" && !u.exclude[id.Name] {
 					if _, other := g2l.fns[u.pkgDir+"."+id.Name]; !other {
 						in[id.Name] = true
 						u.fns = append(u.fns, id.Name)
